@@ -1,9 +1,11 @@
 package vsched
 
 import (
+	"bufio"
 	"crypto/sha1"
 	"encoding/json"
 	"fmt"
+	"io"
 	"os"
 	"os/exec"
 	"sort"
@@ -114,27 +116,37 @@ func sig(o *Outcome) (string, string) {
 	return fmt.Sprintf("%x", h[:8]), txt
 }
 
-// Explore enumerates all executions of sc within its bounds. shard/nshards
-// split the level-1 subtrees between processes (0/1: everything).
-func Explore(sc *Scenario, shard, nshards int) *Result {
-	res := newResult(sc)
-	if nshards < 1 {
-		nshards = 1
-	}
-	start := time.Now()
+// explorer holds the state of one exploration (result, state cache).
+type explorer struct {
+	sc      *Scenario
+	res     *Result
+	start   time.Time
+	expand  func(w work, countIt bool) []work
+	states  map[[2]uint64]struct{}
+	cleanup func()
+}
+
+func (sc *Scenario) selfCheck(res *Result) bool {
 	// determinism self-check: run the default execution twice with logging
 	a := sc.runOnce(nil, true)
 	b := sc.runOnce(nil, true)
 	if strings.Join(a.EventLog, "\n") != strings.Join(b.EventLog, "\n") || fmt.Sprint(a.Observed) != fmt.Sprint(b.Observed) {
 		res.Infra = append(res.Infra, "nondeterministic default execution: "+firstDiff(a.EventLog, b.EventLog))
-		return res
+		return false
 	}
+	return true
+}
+
+func newExplorer(sc *Scenario) *explorer {
+	e := &explorer{sc: sc, res: newResult(sc), start: time.Now()}
+	res := e.res
 	// state cache: (fingerprint, alternative) -> best remaining budget it was explored with
 	type ckey struct {
 		a, b, alt uint64
 	}
 	cache := map[ckey][4]int{}
 	states := map[[2]uint64]struct{}{}
+	e.states = states
 	rem := func(c [4]int) [4]int {
 		f := func(b, used int) int {
 			if b < 0 {
@@ -169,22 +181,11 @@ func Explore(sc *Scenario, shard, nshards int) *Result {
 			}
 			return false
 		}
-		defer func() { pruneHook = nil }()
 	}
-	stack := []work{{}}
-	first := true
-	for len(stack) > 0 {
-		w := stack[len(stack)-1]
-		stack = stack[:len(stack)-1]
-		if (sc.MaxExecutions > 0 && res.Executions >= sc.MaxExecutions) || (sc.Budget > 0 && time.Since(start) > sc.Budget) {
-			res.Truncated = true
-			break
-		}
+	e.cleanup = func() { pruneHook = nil; res.States = int64(len(states)) }
+	e.expand = func(w work, countIt bool) []work {
 		curCost = w.cost
 		o := sc.runOnce(w.prefix, false)
-		isRoot := first
-		first = false
-		countIt := !isRoot || shard == 0
 		if countIt {
 			res.Executions++
 			res.Steps += int64(o.Steps)
@@ -260,22 +261,69 @@ func Explore(sc *Scenario, shard, nshards int) *Result {
 			}
 			// the default alternative taken at i is free by construction (alt 0)
 		}
-		if isRoot && nshards > 1 {
-			var mine []work
-			for i, k := range kids {
-				if i%nshards == shard {
-					mine = append(mine, k)
-				}
-			}
-			kids = mine
+		return kids
+	}
+	return e
+}
+
+func (e *explorer) over() bool {
+	return (e.sc.MaxExecutions > 0 && e.res.Executions >= e.sc.MaxExecutions) || (e.sc.Budget > 0 && time.Since(e.start) > e.sc.Budget)
+}
+
+// dfs explores the subtrees of the given items completely (within bounds / budget).
+func (e *explorer) dfs(items []work) {
+	var stack []work
+	for i := len(items) - 1; i >= 0; i-- {
+		stack = append(stack, items[i])
+	}
+	for len(stack) > 0 {
+		w := stack[len(stack)-1]
+		stack = stack[:len(stack)-1]
+		if e.over() {
+			e.res.Truncated = true
+			break
 		}
+		kids := e.expand(w, true)
 		// push in reverse so that the earliest deviation is explored first
 		for i := len(kids) - 1; i >= 0; i-- {
 			stack = append(stack, kids[i])
 		}
 	}
-	res.States = int64(len(states))
-	return res
+}
+
+// split expands the root and the zero-cost items (the alternatives of FREE choice points: the scenario's
+// configurations, which carry whole-budget subtrees) breadth-first and returns the frontier.
+func (e *explorer) split(minItems int) []work {
+	frontier := []work{{}}
+	for n := 0; n < 512; n++ {
+		pick := -1
+		for i, w := range frontier {
+			if w.cost[CostP]+w.cost[CostD]+w.cost[CostF] == 0 {
+				pick = i
+				break
+			}
+		}
+		if pick < 0 || (len(frontier) >= minItems && n >= 8) || e.over() {
+			break
+		}
+		w := frontier[pick]
+		frontier = append(frontier[:pick:pick], frontier[pick+1:]...)
+		frontier = append(frontier, e.expand(w, true)...)
+	}
+	return frontier
+}
+
+// Explore enumerates all executions of sc within its bounds in this process.
+// (shard/nshards are kept for compatibility: shard k of n explores every n-th frontier item.)
+func Explore(sc *Scenario, shard, nshards int) *Result {
+	e := newExplorer(sc)
+	defer e.cleanup()
+	if !sc.selfCheck(e.res) {
+		return e.res
+	}
+	e.dfs([]work{{}})
+	e.cleanup()
+	return e.res
 }
 
 func taken(tr []ChoicePoint) []int {
@@ -335,72 +383,166 @@ func (r *Result) Merge(o *Result) {
 	}
 }
 
-// ExploreSharded runs Explore in nshards child processes of the current binary
-// (argv: -vsched-shard name:k:n) and merges their results. The child side is
-// served by ServeShard, which the worker main must call first.
+type wireItem struct {
+	P []int  `json:"p"`
+	C [4]int `json:"c"`
+}
+
+// ExploreSharded explores sc with nshards worker processes of the current binary. The master runs the
+// determinism self-check, expands the root and the scenario's free-choice configurations into a frontier
+// of subtrees, and hands the subtrees out on demand (argv of a worker: -vsched-worker=...; items and
+// acknowledgements travel as JSON lines over its stdin/stdout). Workers keep their state cache across
+// items. The child side is served by ServeShard, which the worker main must call first.
 func ExploreSharded(sc *Scenario, nshards int, extraArgs ...string) *Result {
 	if nshards <= 1 {
 		return Explore(sc, 0, 1)
 	}
-	res := newResult(sc)
+	e := newExplorer(sc)
+	if !sc.selfCheck(e.res) {
+		e.cleanup()
+		return e.res
+	}
+	frontier := e.split(8 * nshards)
+	e.cleanup()
+	res := e.res
+	if len(frontier) == 0 {
+		return res
+	}
+	if nshards > len(frontier) {
+		nshards = len(frontier)
+	}
+	items := make(chan work, len(frontier))
+	for _, w := range frontier {
+		items <- w
+	}
+	close(items)
+	remaining := int64(0)
+	if sc.Budget > 0 {
+		left := sc.Budget - time.Since(e.start)
+		if left < time.Second {
+			left = time.Second
+		}
+		remaining = int64(left / time.Second)
+	}
 	var mu sync.Mutex
 	var wg sync.WaitGroup
 	for k := 0; k < nshards; k++ {
 		wg.Add(1)
 		go func(k int) {
 			defer wg.Done()
-			args := append([]string{fmt.Sprintf("-vsched-shard=%s:%d:%d:%d:%d:%d:%d:%d", sc.Name, k, nshards, sc.Bounds.P, sc.Bounds.D, sc.Bounds.F, int64(sc.Budget/time.Second), sc.Bounds.T)}, extraArgs...)
+			fail := func(format string, a ...interface{}) {
+				mu.Lock()
+				res.Infra = append(res.Infra, fmt.Sprintf("worker %d of %s: ", k, sc.Name)+fmt.Sprintf(format, a...))
+				mu.Unlock()
+			}
+			args := append([]string{fmt.Sprintf("-vsched-worker=%s:%d:%d:%d:%d:%d", sc.Name, sc.Bounds.P, sc.Bounds.D, sc.Bounds.F, remaining, sc.Bounds.T)}, extraArgs...)
 			cmd := exec.Command(os.Args[0], args...)
 			cmd.Env = append(os.Environ(), "GOMAXPROCS=2")
 			cmd.Stderr = os.Stderr
-			out, err := cmd.Output()
-			mu.Lock()
-			defer mu.Unlock()
-			var r Result
+			stdin, err := cmd.StdinPipe()
 			if err != nil {
-				res.Infra = append(res.Infra, fmt.Sprintf("shard %d of %s failed: %v", k, sc.Name, err))
+				fail("%v", err)
 				return
 			}
+			stdout, err := cmd.StdoutPipe()
+			if err != nil {
+				fail("%v", err)
+				return
+			}
+			if err := cmd.Start(); err != nil {
+				fail("%v", err)
+				return
+			}
+			rd := bufio.NewReaderSize(stdout, 1<<20)
+			enc := json.NewEncoder(stdin)
+			broken := false
+			for w := range items {
+				if broken {
+					fail("subtree %v not explored", w.prefix)
+					continue
+				}
+				if err := enc.Encode(wireItem{w.prefix, w.cost}); err != nil {
+					fail("send: %v", err)
+					broken = true
+					continue
+				}
+				line, err := rd.ReadString('\n')
+				if err != nil || !strings.HasPrefix(line, "done") {
+					fail("no acknowledgement (%v): %.200s", err, line)
+					broken = true
+				}
+			}
+			stdin.Close()
+			out, _ := io.ReadAll(rd)
+			werr := cmd.Wait()
+			if broken {
+				return
+			}
+			var r Result
 			if e := json.Unmarshal(out, &r); e != nil {
-				res.Infra = append(res.Infra, fmt.Sprintf("shard %d of %s: bad output: %v: %.200s", k, sc.Name, e, out))
+				fail("bad result (%v, exit %v): %.200s", e, werr, out)
 				return
 			}
+			mu.Lock()
 			res.Merge(&r)
+			mu.Unlock()
 		}(k)
 	}
 	wg.Wait()
 	return res
 }
 
-// ServeShard must be called at the start of a worker's main with a lookup from
-// scenario name to scenario. If the process was started as a shard child it
-// runs the shard, prints the JSON result and exits.
+// ServeShard must be called at the start of a worker's main with a lookup from scenario name to
+// scenario. If the process was started as an exploration worker it serves subtrees until its stdin is
+// closed, prints its cumulative JSON result and exits.
 func ServeShard(lookup func(name string) *Scenario) {
 	for _, a := range os.Args[1:] {
-		if strings.HasPrefix(a, "-vsched-shard=") {
-			f := strings.Split(strings.TrimPrefix(a, "-vsched-shard="), ":")
-			var k, n, p, d, fl int
-			var budget int64
-			fmt.Sscan(f[1], &k)
-			fmt.Sscan(f[2], &n)
-			fmt.Sscan(f[3], &p)
-			fmt.Sscan(f[4], &d)
-			fmt.Sscan(f[5], &fl)
-			fmt.Sscan(f[6], &budget)
-			var tot int
-			fmt.Sscan(f[7], &tot)
-			sc := lookup(f[0])
-			if sc == nil {
-				fmt.Fprintf(os.Stderr, "unknown scenario %q\n", f[0])
-				os.Exit(2)
-			}
-			sc.Bounds = Bounds{p, d, fl, tot}
-			sc.Budget = time.Duration(budget) * time.Second
-			r := Explore(sc, k, n)
-			b, _ := json.Marshal(r)
-			os.Stdout.Write(b)
-			os.Exit(0)
+		if !strings.HasPrefix(a, "-vsched-worker=") {
+			continue
 		}
+		f := strings.Split(strings.TrimPrefix(a, "-vsched-worker="), ":")
+		if len(f) < 6 {
+			fmt.Fprintf(os.Stderr, "bad worker spec %q\n", a)
+			os.Exit(2)
+		}
+		var p, d, fl, tot int
+		var budget int64
+		fmt.Sscan(f[1], &p)
+		fmt.Sscan(f[2], &d)
+		fmt.Sscan(f[3], &fl)
+		fmt.Sscan(f[4], &budget)
+		fmt.Sscan(f[5], &tot)
+		sc := lookup(f[0])
+		if sc == nil {
+			fmt.Fprintf(os.Stderr, "unknown scenario %q\n", f[0])
+			os.Exit(2)
+		}
+		sc.Bounds = Bounds{p, d, fl, tot}
+		sc.Budget = time.Duration(budget) * time.Second
+		e := newExplorer(sc)
+		in := bufio.NewReaderSize(os.Stdin, 1<<20)
+		out := bufio.NewWriter(os.Stdout)
+		for {
+			line, err := in.ReadBytes('\n')
+			if len(line) > 0 {
+				var it wireItem
+				if e2 := json.Unmarshal(line, &it); e2 != nil {
+					fmt.Fprintf(os.Stderr, "bad item: %v\n", e2)
+					os.Exit(2)
+				}
+				e.dfs([]work{{prefix: it.P, cost: it.C}})
+				out.WriteString("done\n")
+				out.Flush()
+			}
+			if err != nil {
+				break
+			}
+		}
+		e.cleanup()
+		b, _ := json.Marshal(e.res)
+		out.Write(b)
+		out.Flush()
+		os.Exit(0)
 	}
 }
 
